@@ -11,4 +11,7 @@ value caml_expf_bits(value v) { return to_bits(expf(of_bits(v))); }
 value caml_logf_bits(value v) { return to_bits(logf(of_bits(v))); }
 value caml_tanhf_bits(value v) { return to_bits(tanhf(of_bits(v))); }
 value caml_coshf_bits(value v) { return to_bits(coshf(of_bits(v))); }
-value caml_powf2_bits(value v) { return to_bits(powf(of_bits(v), 2.0f)); }
+/* the exponent is read through a volatile so that the C compiler cannot fold powf(x, 2.0f) into x * x
+   (gcc -O2 does; glibc's powf differs from x * x in the last bit for about 0.08 % of the inputs) */
+static volatile float two_f = 2.0f;
+value caml_powf2_bits(value v) { return to_bits(powf(of_bits(v), two_f)); }
